@@ -786,6 +786,7 @@ func (f *Frame) frameObligations(rst *State, post *Scope, ct *Contract, pos inte
 				}
 			}
 			allowed = append(allowed, ILe(IntLitI(birthBase), RefRoot(r)))
+			c.groundFrames(final, r)
 			c.Oblige("frame", n, rst.reach, Or(append(allowed, Eq(Select(final, r), Select(init, r)))...), p, "map contents outside modifies are unchanged")
 			continue
 		}
@@ -815,6 +816,7 @@ func (f *Frame) frameObligations(rst *State, post *Scope, ct *Contract, pos inte
 			_, inner := arrSorts(c.memSort[n])
 			_, evs := arrSorts(inner)
 			c.groundCopies(final, ix, evs)
+			c.groundFrames(final, r)
 			c.Oblige("frame", n, rst.reach, Or(append(allowed, Eq(Select(Select(final, r), ix), Select(Select(init, r), ix)))...), p,
 				"elements of "+n+" outside the modifies clause are unchanged")
 			continue
@@ -838,6 +840,7 @@ func (f *Frame) frameObligations(rst *State, post *Scope, ct *Contract, pos inte
 			}
 		}
 		allowed = append(allowed, ILe(IntLitI(birthBase), RefRoot(r)))
+		c.groundFrames(final, r)
 		c.usesQuant = true
 		c.Oblige("frame", n, rst.reach, Or(append(allowed, Eq(Select(final, r), Select(init, r)))...), p,
 			"cells of "+n+" outside the modifies clause are unchanged")
